@@ -64,6 +64,17 @@ class Func:
         a = self.node.args
         return [x.arg for x in a.posonlyargs + a.args]
 
+    def arg(self, i):
+        """Name of the i-th parameter, not counting the receiver of a method."""
+        ps = self.params
+        if self.cls is not None and ps and not any(
+                isinstance(d, ast.Name) and d.id == "staticmethod"
+                for d in getattr(self.node, "decorator_list", [])):
+            ps = ps[1:]
+        if i >= len(ps):
+            raise AnalysisError(f"{self.qualname}: no parameter #{i}")
+        return ps[i]
+
     @property
     def lineno(self):
         return self.node.lineno
